@@ -136,6 +136,8 @@ def main(ctx):
         for loss in ("msm", "gsl") if ctx.quick else ("msm", "gsl", "fourier", "likelihood"):
             cells.append({"cfg": {"lineup": lu, "seed": S + 1, "dims": 1, "model": "gauss2", "ensemble": 1, "loss": loss}, "n": n})
     if not ctx.quick:
+        for lu in [x for x in lus if len(x) == 2 and x[0]["cls"] == "Halton"]:
+            cells.append({"cfg": {"lineup": lu, "seed": S + 2, "dims": 2, "model": "gauss2", "ensemble": 1, "loss": "minkowski"}, "n": 6})
         for lu in lineups(3)[::7]:
             cells.append({"cfg": {"lineup": lu, "seed": S, "dims": 2, "model": "gauss2", "ensemble": 1}, "n": 6, "symbols": "pr"})
     # three samplers, cut positions that are not multiples of the line-up length
